@@ -3,7 +3,7 @@ import json, os, sys, time, hashlib, re
 
 VERIF = os.path.dirname(os.path.dirname(os.path.abspath(__file__)))
 KNOWN = os.path.join(VERIF, "known_findings.json")
-EVID = os.path.join(VERIF, "evidence")
+EVID = os.environ.get("L21_EVID") or os.path.join(VERIF, "evidence")
 REPLAY = os.path.join(VERIF, ".work", "replay")
 
 
